@@ -50,18 +50,24 @@ fn points2_family(rng: &mut Rng) -> (Vec<Point2>, usize) {
 
 fn search(rng: &mut Rng) {
     let (pts, fam) = points2_family(rng);
+    // the same cloud in other units (millimetres expressed in metres, and finer): the radius search compares squared
+    // distances, so a length tolerance that leaks into it shows only when the radius itself is small
+    let f = if rng.chance(0.3) { *rng.pick(&[1e-3, 1e-5]) } else { 1.0 };
+    let pts: Vec<Point2> = if f == 1.0 { pts } else { pts.iter().map(|p| Point2::from(p.coords * f)).collect() };
+    let eps = 1e-9 * f;
     // families whose points share exact coordinate values (grids, repeated points) are judged under
     // their own clause names: kiddo 5.0.3's ImmutableKdTree mis-indexes them (see KNOWN_FINDINGS.txt)
     let rep = if fam >= 2 { "_with_shared_coordinates" } else { "" };
     let n = pts.len();
     let tree = KdTree::<2>::new(&pts);
     let q = match rng.below(3) {
-        0 => pts[rng.below(n)],
+        0 => Point2::from(pts[rng.below(n)].coords / f),
         1 => Point2::new(rng.int(-4, 4) as f64 * 0.5 + 0.25, rng.int(-4, 4) as f64 * 0.5),
         _ => Point2::new(rng.range(-6.0, 6.0), rng.range(-6.0, 6.0)),
     };
+    let q = Point2::from(q.coords * f);
     let k = rng.int(1, 8.min(n as i64)) as usize;
-    let r = *rng.pick(&[0.5, 1.0, 0.25, 2.3, 0.0707]);
+    let r = *rng.pick(&[0.5, 1.0, 0.25, 2.3, 0.0707]) * f;
     let mut all: Vec<f64> = pts.iter().map(|p| (p - q).norm()).collect();
     all.sort_by(|a, b| a.partial_cmp(b).unwrap());
     let mut v = Verdict::new();
@@ -76,11 +82,11 @@ fn search(rng: &mut Rng) {
     let wi = tree.within(&q, r);
     let mut wd: Vec<f64> = wi.iter().map(|e| e.1).collect();
     wd.sort_by(|a, b| a.partial_cmp(b).unwrap());
-    let strictly: Vec<f64> = all.iter().cloned().filter(|d| *d < r - 1e-9).collect();
-    let loosely: Vec<f64> = all.iter().cloned().filter(|d| *d <= r + 1e-9).collect();
+    let strictly: Vec<f64> = all.iter().cloned().filter(|d| *d < r - eps).collect();
+    let loosely: Vec<f64> = all.iter().cloned().filter(|d| *d <= r + eps).collect();
     v.require(wd.len() >= strictly.len() && wd.len() <= loosely.len(), &format!("kdtree.within_is_brute_force{rep}"), || format!("{} not in [{}, {}]", wd.len(), strictly.len(), loosely.len()));
     for (i, d) in &wi {
-        v.require(((pts[*i] - q).norm() - d).abs() <= 1e-12 && *d <= r + 1e-9, &format!("kdtree.within_index_and_distance{rep}"), || format!("{i} {d} fam={fam} n={n}"));
+        v.require(((pts[*i] - q).norm() - d).abs() <= 1e-12 && *d <= r + eps, &format!("kdtree.within_index_and_distance{rep}"), || format!("{i} {d} fam={fam} n={n}"));
     }
     let mut idx: Vec<usize> = wi.iter().map(|e| e.0).collect();
     idx.sort();
@@ -92,7 +98,7 @@ fn search(rng: &mut Rng) {
     let mut o = Tok::new();
     o.flist(&nn.iter().map(|e| e.1).collect::<Vec<_>>()).flist(&wd);
     // exact ties at the radius are decided by rounding of squared distances: only compared off the tie
-    if fam >= 2 || all.iter().any(|d| (d - r).abs() < 1e-9) {
+    if fam >= 2 || all.iter().any(|d| (d - r).abs() < eps) {
         emit_oracle_only("search.knn2", &i, &o, &v);
     } else {
         emit("search.knn2", &i, &o, &v);
